@@ -21,6 +21,15 @@ pub struct ShapeMismatch { pub first_shape: Vec<usize>, pub second_shape: Vec<us
 #[derive(Debug)]
 pub enum MultiInputError { EmptyInput, ShapeMismatch(ShapeMismatch) }
 pub mod errors { pub use super::{MultiInputError, ShapeMismatch}; }
+// R12b: `x.into()` with the target type equal to the source type (the guard macro of lib.rs converts a MultiInputError into the
+// function's error type, which is MultiInputError itself): std's reflexive `impl<T> From<T> for T` returns its argument (A-STD).
+// Verus cannot attach a specification to that blanket impl from outside std, so the call is spelled `verif_into_same()`
+pub trait VerifIntoSame<U>: Sized { fn verif_into_same(self) -> (r: U); }
+impl VerifIntoSame<MultiInputError> for MultiInputError {
+    #[verifier::external_body]
+    fn verif_into_same(self) -> (r: MultiInputError) ensures r == self
+    { unimplemented!() }
+}
 
 // `<[T]>::to_vec()` clones the slice (A-STD)
 pub assume_specification<T: Clone>[ <[T]>::to_vec ](s: &[T]) -> (r: Vec<T>)
@@ -44,3 +53,29 @@ pub open spec fn arith_total<A: Signed + AddAssign>() -> bool {
     &&& forall|a: A, b: A| #[trigger] a.mul_req(b)
     &&& forall|a: A, b: A| #[trigger] a.add_assign_req(b)
 }
+
+// ---- A-NUM: num_traits::ToPrimitive::to_f64 and the f64 operations of the mean-error wrappers (values uninterpreted) ----
+pub trait ToPrimitive: Sized {
+    spec fn to_f64_spec(&self) -> Option<f64>;
+    fn to_f64(&self) -> (r: Option<f64>) ensures r == self.to_f64_spec();
+}
+// every value of the element type converts to f64 (true of the primitive numeric types; `expect` would panic otherwise)
+pub open spec fn to_f64_total<A: ToPrimitive>() -> bool { forall|x: A| (#[trigger] x.to_f64_spec()) is Some }
+pub uninterp spec fn usize_as_f64(n: usize) -> f64;
+// R18: `self.len() as f64` (Verus has no `as` cast from usize to f64)
+#[verifier::external_body]
+pub fn verif_usize_as_f64(n: usize) -> (r: f64) ensures r == usize_as_f64(n)
+{ unimplemented!() }
+// R16: `a / b`, `a * b` on f64 (IEEE-754: defined for all operands; the values are not interpreted)
+pub uninterp spec fn f64_div(a: f64, b: f64) -> f64;
+pub uninterp spec fn f64_mul(a: f64, b: f64) -> f64;
+#[verifier::external_body]
+pub fn verif_f64_div(a: f64, b: f64) -> (r: f64) ensures r == f64_div(a, b)
+{ unimplemented!() }
+#[verifier::external_body]
+pub fn verif_f64_mul(a: f64, b: f64) -> (r: f64) ensures r == f64_mul(a, b)
+{ unimplemented!() }
+pub uninterp spec fn f64_sqrt(a: f64) -> f64;
+pub uninterp spec fn f64_log10(a: f64) -> f64;
+pub assume_specification [f64::sqrt] (a: f64) -> (r: f64) ensures r == f64_sqrt(a);
+pub assume_specification [f64::log10] (a: f64) -> (r: f64) ensures r == f64_log10(a);
